@@ -1,20 +1,466 @@
+// simworker runs the simulated cases of one property.  It is built by vcheck
+// from /repo's current working tree through the overlay (tags: verif).
 package main
 
 import (
+	"encoding/binary"
+	"encoding/json"
+	"flag"
 	"fmt"
+	"os"
+	"path/filepath"
+	"strings"
+	"sync"
+	"sync/atomic"
+	"time"
 
-	evalfilter "github.com/skx/evalfilter/v2"
 	"github.com/skx/evalfilter/v2/verifsim"
 )
 
-func main() {
-	e := evalfilter.New(`function f(a){ return a+1; } x = {"b":1,"a":2}; print(x, "\n"); while(true){ y = f(1);} return 1;`)
-	ctx := verifsim.NewSimContext(100)
-	e.SetContext(ctx)
-	if err := e.Prepare(); err != nil {
-		panic(err)
+// ReplayFile is the on-disk form of a violation.
+type ReplayFile struct {
+	Property  string      `json:"property"`
+	Class     string      `json:"class"`
+	Signature string      `json:"signature"`
+	Detail    string      `json:"detail"`
+	Base      uint64      `json:"base_seed"`
+	Tier      string      `json:"tier"`
+	CaseIndex int         `json:"case_index"`
+	Trace     []int32     `json:"trace,omitempty"`
+	Minimised bool        `json:"minimised"`
+	OrigLen   int         `json:"original_trace_len,omitempty"`
+	Rendering interface{} `json:"rendering,omitempty"`
+	Note      string      `json:"note,omitempty"`
+}
+
+// FoundViolation is what a worker reports to the coordinator.
+type FoundViolation struct {
+	Violation
+	Replay    string `json:"replay"`
+	CaseIndex int    `json:"case_index"`
+	Count     int    `json:"count"`
+}
+
+// ShardResult is the summary a worker writes.
+type ShardResult struct {
+	Shard       int               `json:"shard"`
+	Evaluations int               `json:"evaluations"`
+	Enumerated  int               `json:"enumerated"`
+	Random      int               `json:"random"`
+	Nontrivial  int               `json:"nontrivial"`
+	Ticks       int64             `json:"ticks"`
+	Stats       *Stats            `json:"stats"`
+	Violations  []*FoundViolation `json:"violations"`
+	Samples     []interface{}     `json:"samples"`
+	SelfTest    map[string]string `json:"selftest_digests"`
+	WallS       float64           `json:"wall_s"`
+	Complete    bool              `json:"complete"`
+	NextCase    int               `json:"next_case"`
+	TotalCases  int               `json:"total_cases"`
+	EnumTotal   int               `json:"enum_total"`
+	Extra       map[string]interface{} `json:"extra,omitempty"`
+}
+
+func makeProp(id string) Prop {
+	switch id {
+	case "C09":
+		return newC09()
 	}
+	if f, ok := propFactories[id]; ok {
+		return f()
+	}
+	fmt.Fprintf(os.Stderr, "simworker: unknown property %s\n", id)
+	os.Exit(2)
+	return nil
+}
+
+var propFactories = map[string]func() Prop{}
+
+func chooserFor(p Prop, base uint64, enum [][]int32, idx int) *verifsim.Chooser {
+	if idx < len(enum) {
+		return verifsim.NewReplay(enum[idx])
+	}
+	return verifsim.NewChooser(verifsim.Mix(base, p.ID(), uint64(idx-len(enum))))
+}
+
+func hasViolation(o *Outcome, class, sig string) bool {
+	for _, v := range o.V {
+		if v.Class == class && v.Sig == sig {
+			return true
+		}
+	}
+	return false
+}
+
+var minimiseTick func()
+
+// minimise shrinks a choice trace while the same class+signature persists.
+func minimise(p Prop, trace []int32, class, sig string, deadline time.Time) []int32 {
+	st := newStats()
+	evals := 0
+	test := func(t []int32) bool {
+		if evals > 4000 || time.Now().After(deadline) {
+			return false
+		}
+		evals++
+		if minimiseTick != nil {
+			minimiseTick()
+		}
+		o := p.Run(verifsim.NewReplay(t), st, false)
+		return hasViolation(o, class, sig)
+	}
+	cur := append([]int32(nil), trace...)
+	// drop trailing zeros implicitly: an exhausted trace yields zeros
+	trim := func() {
+		for len(cur) > 0 && cur[len(cur)-1] == 0 {
+			cur = cur[:len(cur)-1]
+		}
+	}
+	trim()
+	// 1. shortest failing prefix (binary search is unsound in general, so
+	// halve greedily)
+	for n := len(cur) / 2; n >= 1; n /= 2 {
+		for len(cur) > n {
+			cand := append([]int32(nil), cur[:len(cur)-n]...)
+			if test(cand) {
+				cur = cand
+			} else {
+				break
+			}
+		}
+	}
+	changed := true
+	for pass := 0; changed && pass < 6; pass++ {
+		changed = false
+		// 2. delete chunks
+		for n := len(cur) / 2; n >= 1; n /= 2 {
+			for i := 0; i+n <= len(cur); {
+				cand := append(append([]int32(nil), cur[:i]...), cur[i+n:]...)
+				if test(cand) {
+					cur = cand
+					changed = true
+				} else {
+					i += n
+				}
+			}
+		}
+		// 3. zero, halve, decrement values
+		for i := 0; i < len(cur); i++ {
+			if cur[i] == 0 {
+				continue
+			}
+			for _, v := range []int32{0, cur[i] / 2, cur[i] - 1} {
+				if v >= cur[i] || v < 0 {
+					continue
+				}
+				cand := append([]int32(nil), cur...)
+				cand[i] = v
+				if test(cand) {
+					cur = cand
+					changed = true
+					break
+				}
+			}
+		}
+		trim()
+	}
+	return cur
+}
+
+func writeJSON(path string, v interface{}) {
+	b, err := json.MarshalIndent(v, "", " ")
+	if err != nil {
+		fmt.Fprintln(os.Stderr, "simworker:", err)
+		os.Exit(2)
+	}
+	if err := os.WriteFile(path, b, 0o644); err != nil {
+		fmt.Fprintln(os.Stderr, "simworker:", err)
+		os.Exit(2)
+	}
+}
+
+func sanitize(s string) string {
+	r := strings.NewReplacer("/", "_", " ", "_", ":", "_", "(", "", ")", "", "*", "", "@", "_at_", "|", "_")
+	s = r.Replace(s)
+	if len(s) > 80 {
+		s = s[:80]
+	}
+	return s
+}
+
+func main() {
+	propID := flag.String("prop", "", "property id")
+	tier := flag.String("tier", "quick", "quick|thorough")
+	base := flag.Uint64("base", 1, "base seed (VERIF_SEED)")
+	shard := flag.Int("shard", 0, "shard index")
+	nshards := flag.Int("nshards", 1, "number of shards")
+	out := flag.String("out", "", "output directory for shard results")
+	replays := flag.String("replays", "/verif/replays", "directory for replay files")
+	replay := flag.String("replay", "", "replay file to re-execute")
+	oneCase := flag.Int("case", -1, "run only this case index (with rendering)")
+	from := flag.Int("from", 0, "skip cases below this index")
+	selfOnly := flag.Bool("selftest-only", false, "run only the self-test cases and report their digests")
+	budget := flag.Float64("budget-s", 0, "wall-clock cap in seconds (0 = none)")
+	scale := flag.Float64("scale", 1, "scale the number of random runs")
+	skip := flag.String("skip", "", "comma-separated case indexes to skip (fatal in an earlier attempt)")
+	stall := flag.Float64("stall-s", 10, "a single case running longer than this is reported as a hang and ends the worker (exit 3)")
+	flag.Parse()
+	skipSet := map[int]bool{}
+	for _, f := range strings.Split(*skip, ",") {
+		if f != "" {
+			var n int
+			fmt.Sscan(f, &n)
+			skipSet[n] = true
+		}
+	}
+
+	p := makeProp(*propID)
+	verifsim.SetMapPolicy(&verifsim.OrderPolicy{Kind: verifsim.OrdAsc})
 	verifsim.CaptureStdout()
-	out, err := e.Execute(nil)
-	fmt.Println(out.Inspect(), err, ctx.Polls, ctx.PollsAfter, e.VerifScopes(), e.VerifStack(), verifsim.TakeStdout())
+
+	if *replay != "" {
+		os.Exit(doReplay(p, *replay))
+	}
+
+	enum := p.Enumerate(*tier)
+	nrand := int(float64(p.RandomRuns(*tier)) * *scale)
+	total := len(enum) + nrand
+	start := time.Now()
+
+	if *oneCase >= 0 {
+		c := chooserFor(p, *base, enum, *oneCase)
+		o := p.Run(c, newStats(), true)
+		rf := &ReplayFile{Property: p.ID(), Base: *base, Tier: *tier, CaseIndex: *oneCase, Trace: c.Values(), Rendering: o.Sample}
+		if len(o.V) > 0 {
+			rf.Class, rf.Signature, rf.Detail = o.V[0].Class, o.V[0].Sig, o.V[0].Detail
+		}
+		b, _ := json.MarshalIndent(rf, "", " ")
+		fmt.Println(string(b))
+		if len(o.V) > 0 {
+			os.Exit(1)
+		}
+		return
+	}
+
+	st := newStats()
+	res := &ShardResult{Shard: *shard, Stats: st, SelfTest: map[string]string{}, TotalCases: total, EnumTotal: len(enum)}
+	seenSig := map[string]*FoundViolation{}
+	var digests []uint64
+	var curFile *os.File
+	if *out != "" {
+		os.MkdirAll(*out, 0o755)
+		curFile, _ = os.OpenFile(filepath.Join(*out, fmt.Sprintf("shard-%d.cur", *shard)), os.O_CREATE|os.O_WRONLY, 0o644)
+	}
+	isSelf := func(i int) bool { return i < 40 || (i >= len(enum) && i < len(enum)+40) }
+	sampleEvery := total / (*nshards * 6)
+	if sampleEvery < 1 {
+		sampleEvery = 1
+	}
+	var curBuf [24]byte
+	complete := true
+	var resMu sync.Mutex
+	i := 0
+	flush := func(final bool) {
+		res.Complete = final && complete
+		res.NextCase = i
+		res.WallS = time.Since(start).Seconds()
+		if *out == "" {
+			return
+		}
+		name := fmt.Sprintf("shard-%d", *shard)
+		if *selfOnly {
+			name = fmt.Sprintf("self-%d", *shard)
+		}
+		writeJSON(filepath.Join(*out, name+".json.tmp"), res)
+		os.Rename(filepath.Join(*out, name+".json.tmp"), filepath.Join(*out, name+".json"))
+		buf := make([]byte, 8*len(digests))
+		for j, d := range digests {
+			binary.LittleEndian.PutUint64(buf[8*j:], d)
+		}
+		os.WriteFile(filepath.Join(*out, name+".digests"), buf, 0o644)
+	}
+	// in-process watchdog: a case that does not end cannot be interrupted
+	// (the script neither polls its context nor calls the host), so the
+	// worker reports it and exits; the coordinator confirms and restarts.
+	var caseNo, caseStart atomic.Int64
+	caseNo.Store(-1)
+	go func() {
+		for {
+			time.Sleep(200 * time.Millisecond)
+			n, st0 := caseNo.Load(), caseStart.Load()
+			if n < 0 || st0 == 0 {
+				continue
+			}
+			if time.Since(time.Unix(0, st0)).Seconds() > *stall && caseNo.Load() == n {
+				resMu.Lock()
+				desc, _ := currentDesc.Load().(string)
+				fv := &FoundViolation{Violation: Violation{Class: p.ID() + "/hang", Sig: desc,
+					Detail: fmt.Sprintf("case %d did not end within %.0fs of wall clock (expected: milliseconds); the simulated context was not consulted and no host function was called, so the run could not be interrupted", n, *stall)},
+					CaseIndex: int(n), Count: 1}
+				rf := &ReplayFile{Property: p.ID(), Class: fv.Class, Signature: fv.Sig, Detail: fv.Detail, Base: *base, Tier: *tier, CaseIndex: int(n),
+					Note: "replayed by case index; a hang reproduces as a hang (the replay command applies the same watchdog)"}
+				os.MkdirAll(*replays, 0o755)
+				path := filepath.Join(*replays, fmt.Sprintf("%s-hang-%d.json", p.ID(), n))
+				writeJSON(path, rf)
+				fv.Replay = path
+				res.Violations = append(res.Violations, fv)
+				flush(false)
+				os.Exit(3)
+			}
+		}
+	}()
+	lastFlush := time.Now()
+	// block-cyclic sharding: neighbouring cases (same script) share a worker
+	const block = 256
+	for ; i < total; i++ {
+		if (i/block)%*nshards != *shard {
+			continue
+		}
+		if i < *from || skipSet[i] {
+			continue
+		}
+		if time.Since(lastFlush) > 2*time.Second {
+			resMu.Lock()
+			flush(false)
+			resMu.Unlock()
+			lastFlush = time.Now()
+		}
+		if *selfOnly && !isSelf(i) {
+			if i >= len(enum)+40 {
+				break
+			}
+			continue
+		}
+		if *budget > 0 && (res.Evaluations&63) == 0 && time.Since(start).Seconds() > *budget {
+			complete = false
+			break
+		}
+		if curFile != nil {
+			n := copy(curBuf[:], fmt.Sprintf("%-20d\n", i))
+			curFile.WriteAt(curBuf[:n], 0)
+		}
+		c := chooserFor(p, *base, enum, i)
+		wantSample := len(res.Samples) < 4 && (res.Evaluations%sampleEvery) == sampleEvery/2
+		caseStart.Store(time.Now().UnixNano())
+		caseNo.Store(int64(i))
+		o := p.Run(c, st, wantSample)
+		caseNo.Store(-1)
+		resMu.Lock()
+		res.Evaluations++
+		if i < len(enum) {
+			res.Enumerated++
+		} else {
+			res.Random++
+		}
+		res.Ticks += o.Ticks
+		if o.Nontrivial {
+			res.Nontrivial++
+			digests = append(digests, o.Digest.H)
+		}
+		if isSelf(i) {
+			res.SelfTest[fmt.Sprint(i)] = fmt.Sprintf("%016x", o.Digest.H)
+		}
+		if wantSample && o.Sample != nil && o.Nontrivial {
+			res.Samples = append(res.Samples, o.Sample)
+		}
+		for _, v := range o.V {
+			key := v.Class + "|" + v.Sig
+			if fv, ok := seenSig[key]; ok {
+				fv.Count++
+				continue
+			}
+			fv := &FoundViolation{Violation: v, CaseIndex: i, Count: 1}
+			seenSig[key] = fv
+			res.Violations = append(res.Violations, fv)
+			if *selfOnly {
+				continue
+			}
+			trace := c.Values()
+			// the watchdog stays armed while minimising (a candidate may
+			// hang); it needs the lock to report
+			resMu.Unlock()
+			minimiseTick = func() { caseStart.Store(time.Now().UnixNano()); caseNo.Store(int64(i)) }
+			min := minimise(p, trace, v.Class, v.Sig, time.Now().Add(20*time.Second))
+			minimiseTick()
+			ro := p.Run(verifsim.NewReplay(min), newStats(), true)
+			caseNo.Store(-1)
+			resMu.Lock()
+			rf := &ReplayFile{Property: p.ID(), Class: v.Class, Signature: v.Sig, Detail: v.Detail, Base: *base, Tier: *tier,
+				CaseIndex: i, Trace: min, Minimised: true, OrigLen: len(trace), Rendering: ro.Sample}
+			for _, mv := range ro.V {
+				if mv.Class == v.Class && mv.Sig == v.Sig {
+					rf.Detail = mv.Detail
+				}
+			}
+			if !hasViolation(ro, v.Class, v.Sig) {
+				// should not happen: fall back to the unminimised trace
+				rf.Trace, rf.Minimised = trace, false
+				rf.Note = "minimised trace did not reproduce; original trace kept"
+			}
+			os.MkdirAll(*replays, 0o755)
+			path := filepath.Join(*replays, fmt.Sprintf("%s-%s-%d.json", p.ID(), sanitize(v.Class[strings.Index(v.Class, "/")+1:]+"-"+v.Sig), i))
+			writeJSON(path, rf)
+			fv.Replay = path
+			fv.Detail = rf.Detail
+		}
+		resMu.Unlock()
+	}
+	resMu.Lock()
+	if ex, ok := p.(interface{ Extra() map[string]interface{} }); ok {
+		res.Extra = ex.Extra()
+	}
+	flush(true)
+	if *out == "" {
+		res.Complete = complete
+		b, _ := json.MarshalIndent(res, "", " ")
+		fmt.Println(string(b))
+	}
+}
+
+// currentDesc is a short description of the running case (set by the
+// property as early as it can), used as the signature of a hang.
+var currentDesc atomic.Value
+
+func doReplay(p Prop, path string) int {
+	data, err := os.ReadFile(path)
+	if err != nil {
+		fmt.Fprintln(os.Stderr, "simworker:", err)
+		return 2
+	}
+	var rf ReplayFile
+	if err := json.Unmarshal(data, &rf); err != nil {
+		fmt.Fprintln(os.Stderr, "simworker:", err)
+		return 2
+	}
+	var c *verifsim.Chooser
+	if rf.Trace != nil {
+		c = verifsim.NewReplay(rf.Trace)
+	} else {
+		enum := p.Enumerate(rf.Tier)
+		c = chooserFor(p, rf.Base, enum, rf.CaseIndex)
+	}
+	if strings.HasSuffix(rf.Class, "/hang") {
+		go func() {
+			time.Sleep(12 * time.Second)
+			fmt.Printf("the case is still running after 12s of wall clock\nVIOLATION property=%s replay=%s\n  class=%s signature=%s\n", p.ID(), path, rf.Class, rf.Signature)
+			os.Exit(1)
+		}()
+	}
+	o := p.Run(c, newStats(), true)
+	b, _ := json.MarshalIndent(map[string]interface{}{"rendering": o.Sample, "violations": o.V}, "", " ")
+	fmt.Println(string(b))
+	if rf.Class == "" {
+		if len(o.V) > 0 {
+			fmt.Printf("VIOLATION property=%s replay=%s\n", p.ID(), path)
+			return 1
+		}
+		return 0
+	}
+	if hasViolation(o, rf.Class, rf.Signature) {
+		fmt.Printf("VIOLATION property=%s replay=%s\n", p.ID(), path)
+		fmt.Printf("  class=%s signature=%s\n", rf.Class, rf.Signature)
+		return 1
+	}
+	fmt.Printf("replay of %s did not reproduce %s [%s] on this tree\n", path, rf.Class, rf.Signature)
+	return 0
 }
